@@ -63,7 +63,7 @@ def gen_plan(tape, cfg):
     for _ in range(tape.rint(30, 120, "nops")):
         k = tape.weighted([(10, "build"), (2, "illtyped"), (2, "simplify"), (2, "substitute"), (3, "normalize"),
                            (2, "const"), (2, "eqhash"), (1, "collapse"), (1, "quant_order"), (1, "normalize_clash"),
-                           (1, "builtin_named_sort"), (1, "array_subst"), (1, "pickle"), (1, "equal_type"), (1, "parametric_sort"), (1, "env_stack"), (1, "bv_nary"), (1, "infix_neg")], "op")
+                           (1, "builtin_named_sort"), (1, "array_subst"), (1, "pickle"), (1, "equal_type"), (1, "parametric_sort"), (1, "env_stack"), (1, "bv_nary"), (1, "infix_neg"), (1, "reset_env"), (1, "identity_walk")], "op")
         o = {"op": k, "client": tape.draw(nclients, "client"), "env": tape.draw(nenv, "env"),
              "i": tape.draw(len(pool), "formula")}
         if k == "build":
@@ -766,6 +766,56 @@ def execute(plan, tape):
                                     (where, na, nb, _s(cp), [str(a_.symbol_type()) for a_ in cp.args()], _s(src),
                                      [str(a_.symbol_type()) for a_ in src.args()]))
                 trace.append(("normalize_clash", "copied"))
+            elif k == "reset_env":
+                # reset_env() replaces the current environment by a brand-new one; an environment (and
+                # its formulas) a caller still holds stays what it was
+                scratch = Environment()
+                penv.push_env(scratch)
+                try:
+                    try:
+                        f1 = bp.build(t, scratch)
+                    except (PysmtTypeError, PysmtValueError):
+                        f1 = None
+                    mgr1 = scratch.formula_manager
+                    new_env = penv.reset_env()
+                    if new_env is scratch or penv.get_env() is scratch:
+                        raise Violation("C04:env-stack", "%s: reset_env() handed back the environment it replaced" % where)
+                    if scratch.formula_manager is not mgr1:
+                        raise Violation("C04:env-stack", "%s: reset_env() gave the replaced environment (still held by the caller) a new formula manager" % where)
+                    if f1 is not None:
+                        if f1 not in scratch.formula_manager:
+                            raise Violation("C04:not-owned", "%s: after reset_env() a formula of the replaced environment is not in that environment's manager any more" % where)
+                        if bp.build(t, scratch) is not f1:
+                            raise Violation("C04:one-structure-two-objects",
+                                            "%s: after reset_env() the replaced environment builds a second object for %s" % (where, _s(f1)))
+                finally:
+                    penv.pop_env()
+                probe("reset_env")
+                trace.append(("reset_env",))
+            elif k == "identity_walk":
+                # re-creating a formula in another environment with the identity walker of that
+                # environment gives the node that environment builds itself (function symbols included)
+                if len(envs) > 1:
+                    from pysmt.walkers import IdentityDagWalker
+                    src = bp.build(t, env)
+                    uses_user_sort = any(bp.is_usort(s_) or (bp.is_array(s_) and (bp.is_usort(s_[1]) or bp.is_usort(s_[2])))
+                                         or (bp.is_fun(s_) and any(bp.is_usort(a_) for a_ in list(s_[1]) + [s_[2]]))
+                                         for s_ in bp.symbols_of(t).values())
+                    if not uses_user_sort:
+                        ti = (ei + 1) % len(envs)
+                        want = envs[ti].formula_manager.normalize(src)
+                        penv.push_env(envs[ti])
+                        try:
+                            got = IdentityDagWalker(env=envs[ti]).walk(src)
+                            register(ti, got, o["client"], "identity_walk", step, where + " (copy)")
+                        finally:
+                            penv.pop_env()
+                        if got is not want:
+                            raise Violation("C04:normalize:structure",
+                                            "%s: the identity walker of the destination rebuilt %s as another object than normalize()" %
+                                            (where, _s(src)))
+                        probe("identity_walk_across_environments")
+                trace.append(("identity_walk",))
             elif k == "env_stack":
                 # `with env:` makes env the global environment and restores the previous one on
                 # exit, also when the same environment is entered again further up the stack; what
